@@ -13,7 +13,7 @@ use crate::parser::model_transformer::Exp;
 use crate::parser::model_transformer::TransformError;
 use crate::parser::model_transformer::TransformerContext;
 use crate::parser::recursive_set_resolver::recursive_set_resolver;
-use crate::primitives::ApplyOp;
+use crate::primitives::{ApplyOp, OperatorError};
 use crate::primitives::IterableKind;
 use crate::primitives::{Graph, GraphEdge, GraphNode};
 use crate::primitives::{Primitive, PrimitiveKind};
@@ -760,6 +760,11 @@ impl PreExp {
                 let rhs = rhs.as_primitive(context, fn_context)?;
                 match lhs.apply_binary_op(**op, &rhs) {
                     Ok(value) => Ok(value),
+                    //a division by zero or an overflow depends on the data, the operator
+                    //does apply to these operand types
+                    Err(e @ (OperatorError::DivisionByZero | OperatorError::Overflow { .. })) => {
+                        Err(TransformError::Other(e.to_string()).add_span(op.span()))
+                    }
                     Err(_) => Err(TransformError::from_wrong_binop(
                         **op,
                         lhs.get_type(),
